@@ -264,7 +264,7 @@ func (r *Run) Finish(evaluations, distinctNontrivial int64, rule string) {
 	r.mu.Unlock()
 
 	b, _ := json.MarshalIndent(ev, "", " ")
-	dir := filepath.Join(VerifDir(), "evidence")
+	dir := EvidenceDir()
 	name := r.ID + ".json"
 	if SubRun() != "" { // a secondary build reports to its parent, which owns the evidence file
 		dir = BinDir()
@@ -382,4 +382,14 @@ func lastLines(s string, n int) string {
 		l = l[len(l)-n:]
 	}
 	return strings.Join(l, " | ")
+}
+
+// EvidenceDir is /verif/evidence, or VERIF_EVIDENCE_DIR when runs against a tree other than /repo's (seeded changes,
+// mutants) must not overwrite the evidence of the unchanged tree.
+func EvidenceDir() string {
+	if d := os.Getenv("VERIF_EVIDENCE_DIR"); d != "" {
+		os.MkdirAll(d, 0o755)
+		return d
+	}
+	return filepath.Join(VerifDir(), "evidence")
 }
